@@ -197,7 +197,8 @@ func mkStamp(s int) time.Time {
 	if s == missingStamp {
 		return time.Time{}
 	}
-	return time.Unix(int64(s), 0)
+	// quarter-second units: stamps that differ may share their whole second (order is what the model compares)
+	return time.Unix(1700000000+int64(s/4), int64(s%4)*250000000)
 }
 
 func init() {
